@@ -500,6 +500,9 @@ func (k *checker) runFiles(base int) bool {
 	if c.Mine(base + 100002) {
 		k.loadAfterReplace()
 	}
+	if c.Mine(base + 100003) {
+		k.sinks()
+	}
 	c.Bound("a.files", "every sequence of 1..3 obj.Save calls over a menu of three meshes (6, 2, 1 triangles) to one path, then obj.Load")
 	return !stop
 }
@@ -599,4 +602,30 @@ func (k *checker) loadAfterReplace() {
 		return
 	}
 	k.c.Eval("files/load-after-replace", "ok")
+}
+
+// the same meshes to every kind of destination (core.SinkAgreement)
+func (k *checker) sinks() {
+	k.c.Nontrivial("destinations")
+	lists := [][]obj.ObjMesh{
+		{fileMenu[2].build()},
+		{fileMenu[0].build(), fileMenu[1].build(), fileMenu[0].build()},
+		{},
+	}
+	lists[1][0].Name, lists[1][1].Name, lists[1][2].Name = "a", "b", "c"
+	var many []obj.ObjMesh
+	for i := 0; i < 400; i++ {
+		m := fileMenu[i%3].build()
+		m.Name = fmt.Sprintf("g%d", i)
+		many = append(many, m)
+	}
+	lists = append(lists, many)
+	for _, l := range lists {
+		if why := core.SinkAgreement(func(w io.Writer) error { return obj.WriteMeshes(l, "", w) }); why != "" {
+			k.c.Eval("files/destinations", "mismatch")
+			k.fail("obj.WriteMeshes", "writing a list of meshes yields the text of that list (whatever kind of io.Writer receives it)", "destinations", fmt.Sprintf("%d meshes: %s", len(l), why), Case{Kind: "sinks"})
+			return
+		}
+	}
+	k.c.Eval("files/destinations", "ok")
 }
